@@ -10,6 +10,7 @@ R30.3 utils::pos_to_offset decides the width of the line terminator per line: in
       addition of a terminator width is a constant selected by a test evaluated in that iteration (a width decided once
       for the whole document is wrong for texts that mix CRLF and LF and yields offsets beyond the text).
 Offsets staying within the text in general is a value property: NOT decided.
+R30.4 unsigned-subtraction inventory on the same request paths (guard-discharged or reviewed, see subguard.py).
 """
 import json
 import os
@@ -30,6 +31,14 @@ META = {
 HANDLERS = ["handle_goto_definition", "handle_hover", "handle_document_symbols", "handle_prepare_rename", "handle_rename",
             "handle_formatting", "handle_code_action"]
 TABLE = os.path.join(os.path.dirname(os.path.dirname(os.path.dirname(os.path.abspath(__file__)))), "tables", "c30_panics.json")
+
+
+SUB_TABLE = {
+    "parol_ls|utils|extract_text_range":
+        (1, "end - start of an Rng: ranges are built from token locations (start <= end) by Rng::from / Rng::extend"),
+    "parol_ls|formatting::format::production_fmt|format_production_lhs_with_context":
+        (1, "4 - identifier.len() behind `identifier.len() + comments.len() < 5` (a sum guard the recogniser does not model)"),
+}
 
 
 def inventory(ctx):
@@ -79,6 +88,9 @@ def check(ctx):
                    nontrivial=(e["class"] == "reviewed-safe"))
     ctx.counters.update({"sites_" + k.replace("-", "_"): v for k, v in classes.items()})
     ctx.require_floor("R30.1", "reachable_functions", len(seen), 100)
+    # R30.4 unsigned subtractions on the request paths: guarded or reviewed
+    from . import subguard
+    subguard.inventory(ctx, ctx.facts(), cg, seen, "R30.4", SUB_TABLE, 2, what="request paths of the language server")
     # R30.2
     facts = ctx.facts()
     n = 0
